@@ -27,9 +27,11 @@ VARIABLES
   \* @type: Int -> Int;
   origin,
   \* @type: Set(Int);
-  saved
+  saved,
+  \* @type: Int -> Int;
+  scal
 
-INSTANCE Lifecycle WITH NIds <- 6
+INSTANCE Lifecycle WITH NIds <- 6, NScal <- 3
 
 IndInit == IndInv
 
@@ -39,6 +41,11 @@ BadStartAgain(i) ==
   /\ alive[i] /\ started[i] /\ ~restored[i]
   /\ nmsg' = [nmsg EXCEPT ![i] = @ + 1]
   /\ entropy' = [entropy EXCEPT ![i] = @ + 1]
-  /\ UNCHANGED <<alive, started, finished, gaveMsg, gaveKey, restored, nkey, origin, saved>>
+  /\ UNCHANGED <<alive, started, finished, gaveMsg, gaveKey, restored, nkey, origin, saved, scal>>
 BadNext == LNext \/ \E i \in Ids : BadStartAgain(i)
+
+(* second guard: a start() that replaces the scalar of a restored instance breaks ScalarNeverChanges *)
+BadRescal(i) == /\ alive[i] /\ restored[i] /\ scal' = [scal EXCEPT ![i] = 1]
+                /\ UNCHANGED <<alive, started, finished, gaveMsg, gaveKey, restored, nmsg, nkey, entropy, origin, saved>>
+BadNext2 == LNext \/ \E i \in Ids : BadRescal(i)
 =============================================================================
